@@ -27,17 +27,20 @@ var fieldKinds = []struct{ name, typ string }{
 	{"[]string", "[]string"}, {"map[string]bool", "map[string]bool"},
 	{"same-package-interface", "Iface"},
 	{"untagged-generic-dependency", "UG[string]"},
+	// an interface that declares a copier of its own (k8s runtime.Object style)
+	{"self-copying-interface", "Copier"},
 }
 
 var aux = map[string]string{
-	"Sub":   "// Sub is tagged.\n// +gengo:deepcopy\ntype Sub struct {\n\tS []int\n\tM map[string]string\n\tN int\n}\n",
-	"Dep":   "// Dep is reached only as a dependency.\ntype Dep struct {\n\tS []string\n\tK string\n}\n",
-	"Deep":  "// Deep nests three levels.\n// +gengo:deepcopy\ntype Deep struct {\n\tMid Mid\n\tTop []int\n}\n\ntype Mid struct {\n\tLeaf Leaf\n\tL    []int\n}\n\ntype Leaf struct {\n\tM map[string]int\n\tV float64\n}\n",
-	"MyInt": "type MyInt int\n",
-	"MyMap": "type MyMap map[string]string\n",
-	"Iface": "type Iface interface {\n\tM() string\n}\n\ntype impl string\n\nfunc (i impl) M() string { return string(i) }\n",
-	"UG":    "// UG is generic and reached only as a dependency, through an instantiation.\ntype UG[T any] struct {\n\tV T\n\tN int\n}\n",
-	"G":     "// G is generic.\n// +gengo:deepcopy\ntype G[T any] struct {\n\tV T\n\tN int\n}\n",
+	"Sub":    "// Sub is tagged.\n// +gengo:deepcopy\ntype Sub struct {\n\tS []int\n\tM map[string]string\n\tN int\n}\n",
+	"Dep":    "// Dep is reached only as a dependency.\ntype Dep struct {\n\tS []string\n\tK string\n}\n",
+	"Deep":   "// Deep nests three levels.\n// +gengo:deepcopy\ntype Deep struct {\n\tMid Mid\n\tTop []int\n}\n\ntype Mid struct {\n\tLeaf Leaf\n\tL    []int\n}\n\ntype Leaf struct {\n\tM map[string]int\n\tV float64\n}\n",
+	"MyInt":  "type MyInt int\n",
+	"MyMap":  "type MyMap map[string]string\n",
+	"Iface":  "type Iface interface {\n\tM() string\n}\n\ntype impl string\n\nfunc (i impl) M() string { return string(i) }\n",
+	"Copier": "// Copier copies itself.\ntype Copier interface {\n\tDeepCopyCopier() Copier\n}\n\n// CopierImpl implements Copier; a nil *CopierImpl copies to a nil interface.\ntype CopierImpl struct {\n\tN int\n\tS []int\n}\n\nfunc (i *CopierImpl) DeepCopyCopier() Copier {\n\tif i == nil {\n\t\treturn nil\n\t}\n\tc := *i\n\tc.S = append([]int(nil), i.S...)\n\treturn &c\n}\n",
+	"UG":     "// UG is generic and reached only as a dependency, through an instantiation.\ntype UG[T any] struct {\n\tV T\n\tN int\n}\n",
+	"G":      "// G is generic.\n// +gengo:deepcopy\ntype G[T any] struct {\n\tV T\n\tN int\n}\n",
 }
 
 type Prog struct {
@@ -156,6 +159,13 @@ func (p Prog) source(pkg string) (src, check, methods string) {
 			cb.WriteString("\tverifkit.CheckDeepCopy(&checks, &fails, \"G[int]\", new(G[int]))\n")
 		case "UG":
 			cb.WriteString("\tverifkit.CheckDeepCopy(&checks, &fails, \"UG[string]\", new(UG[string]))\n")
+		case "Copier":
+			// hand-built values: the field holds a typed nil pointer / a populated implementation
+			for i, f := range p.Fields {
+				if fieldKinds[f].typ == "Copier" {
+					fmt.Fprintf(&cb, "\t{\n\t\tv := new(%s)\n\t\tv.F%d = (*CopierImpl)(nil)\n\t\tverifkit.CheckEqualCopy(&checks, &fails, \"%s with a typed nil pointer in field F%d\", v)\n\t\tw := new(%s)\n\t\tw.F%d = &CopierImpl{N: 1, S: []int{1, 2}}\n\t\tverifkit.CheckEqualCopy(&checks, &fails, \"%s with a populated implementation in field F%d\", w)\n\t}\n", root, i, root, i, root, i, root, i)
+				}
+			}
 		case "Iface":
 			// an interface type has no DeepCopy of its own
 		case "Deep":
@@ -458,7 +468,7 @@ func replay(c *core.Ctx, raw json.RawMessage) {
 func init() {
 	core.Register(&core.Prop{
 		ID: "C17", Level: "model_checking", Run: run, Replay: replay, Shards: 4,
-		Rule:        "(seam build: the second generation runs under descending map order in library and generator) every root struct with 1..2 fields (ordered; plus all 3-field lists over the same-package kinds) over 16 field kinds (scalars, string, slices/maps of scalars, tagged same-package struct, untagged dependency struct, 3-level nesting through untagged dependencies, defined scalar, defined map, error, any, named interface, field of an instantiated generic struct) x enabling tag on package vs on type x gengo:deepcopy:interfaces on/off x generic root (bare type-parameter field) x hand-written methods (one non-pointer parameter / result) on every type in a file loaded before / after the generated one; all packages of a batch generated in one run together with an EARLIER package that holds their exported types by value; each package generated TWICE by the real generator through the real pipeline (outputs compared), compiled with the package, and exercised by a harness-written check (nil, DeepEqual, mutate every reachable slice/map of the copy then compare the original with a snapshot, DeepCopyInto). Non-trivial = 2 fields; states = distinct (field count, tag placement, interfaces, failed?)",
+		Rule:        "(seam build: the second generation runs under descending map order in library and generator) every root struct with 1..2 fields (ordered; plus all 3-field lists over the same-package kinds) over 19 field kinds (scalars, string, slices/maps of scalars, tagged same-package struct, untagged dependency struct, 3-level nesting through untagged dependencies, defined scalar, defined map, error, any, named interface, field of an instantiated generic struct) x enabling tag on package vs on type x gengo:deepcopy:interfaces on/off x generic root (bare type-parameter field) x hand-written methods (one non-pointer parameter / result) on every type in a file loaded before / after the generated one; all packages of a batch generated in one run together with an EARLIER package that holds their exported types by value; each package generated TWICE by the real generator through the real pipeline (outputs compared), compiled with the package, and exercised by a harness-written check (nil, DeepEqual, mutate every reachable slice/map of the copy then compare the original with a snapshot, DeepCopyInto). Non-trivial = 2 fields; states = distinct (field count, tag placement, interfaces, failed?)",
 		Assumptions: []string{"pointer fields, slices of structs and slices over type parameters are outside the stated domain"},
 	})
 }
